@@ -10,6 +10,10 @@ import (
 
 var Discard = io.Discard
 
+// TempFile is the old name of os.CreateTemp; not provided: a tree that needs it
+// fails to build against the simulator, which is reported as an infrastructure
+// error, never as a violation.
+
 func ReadAll(r io.Reader) ([]byte, error)      { return io.ReadAll(r) }
 func NopCloser(r io.Reader) io.ReadCloser      { return io.NopCloser(r) }
 func ReadFile(filename string) ([]byte, error) { return simos.ReadFile(filename) }
